@@ -593,6 +593,7 @@ def _run_call(eng, par, k, call, gen_mode):
 
     def free_m(why):
         if eng.m_busy is None:
+            collect()
             return True
         ok, forced = _drain(eng, lambda: eng.m_busy is None, why)
         rec["forced"] += forced
